@@ -385,7 +385,11 @@ def run(ctx):
     files = [CONV, FILT] if ctx.tier == "quick" else [r for r in ctx.all_sources((".py",))]
     n_sites = 0
     for rel in files:
-        src = ctx.src(rel)
+        ctx.sweeping = ctx.tier != "quick"
+        try:
+            src = ctx.src(rel)
+        finally:
+            ctx.sweeping = False
         for n in precedence_sites(src.tree):
             n_sites += 1
             ctx.ob("R5.comparison-inside-bitwise-chain", rel, "<module>", n, False,
@@ -615,11 +619,11 @@ MUTANTS = [
            "            # non-finite or too large values can only be kept as float\n            return bcif.BinaryCIFData(array, [ByteArrayEncoding(np.float32)])",
            "R6.fallback-lossless"),
     Mutant("compress-guard-removed", COMPRESS,
-           "        if not np.isfinite(array).all() or (\n            np.abs(array) * factor >= np.iinfo(np.int32).max\n        ).any():\n            # The fixed point representation is a 32 bit integer:\n            # non-finite or too large values can only be kept as float\n            return bcif.BinaryCIFData(array, [ByteArrayEncoding()])\n",
+           "        if (\n            factor is None\n            or not np.isfinite(array).all()\n            or (np.abs(array) * factor >= np.iinfo(np.int32).max).any()\n        ):\n            # The fixed point representation is a 32 bit integer:\n            # non-finite or too large values can only be kept as float\n            return bcif.BinaryCIFData(array, [ByteArrayEncoding()])\n",
            "", "R6.fixed-point-guarded"),
     Mutant("compress-guard-after-encode", COMPRESS,
-           "        if not np.isfinite(array).all() or (\n            np.abs(array) * factor >= np.iinfo(np.int32).max\n        ).any():\n            # The fixed point representation is a 32 bit integer:\n            # non-finite or too large values can only be kept as float\n            return bcif.BinaryCIFData(array, [ByteArrayEncoding()])\n        to_integer_encoding = FixedPointEncoding(factor)\n        integer_array = to_integer_encoding.encode(array)\n",
-           "        to_integer_encoding = FixedPointEncoding(factor)\n        integer_array = to_integer_encoding.encode(array)\n        if not np.isfinite(array).all() or (\n            np.abs(array) * factor >= np.iinfo(np.int32).max\n        ).any():\n            # The fixed point representation is a 32 bit integer:\n            # non-finite or too large values can only be kept as float\n            return bcif.BinaryCIFData(array, [ByteArrayEncoding()])\n", "R6.fixed-point-guarded"),
+           "        if (\n            factor is None\n            or not np.isfinite(array).all()\n            or (np.abs(array) * factor >= np.iinfo(np.int32).max).any()\n        ):\n            # The fixed point representation is a 32 bit integer:\n            # non-finite or too large values can only be kept as float\n            return bcif.BinaryCIFData(array, [ByteArrayEncoding()])\n        to_integer_encoding = FixedPointEncoding(factor)\n        integer_array = to_integer_encoding.encode(array)\n",
+           "        to_integer_encoding = FixedPointEncoding(factor)\n        integer_array = to_integer_encoding.encode(array)\n        if (\n            factor is None\n            or not np.isfinite(array).all()\n            or (np.abs(array) * factor >= np.iinfo(np.int32).max).any()\n        ):\n            # The fixed point representation is a 32 bit integer:\n            # non-finite or too large values can only be kept as float\n            return bcif.BinaryCIFData(array, [ByteArrayEncoding()])\n", "R6.fixed-point-guarded"),
     Mutant("compress-other-factor", COMPRESS, "        to_integer_encoding = FixedPointEncoding(factor)", "        to_integer_encoding = FixedPointEncoding(10 * factor)",
            "R6.same-factor"),
     Mutant("decimals-absolute-error", COMPRESS, "        if np.all(error < tol * np.abs(array)):", "        if np.all(error < tol):", "R6.tolerance"),
